@@ -308,6 +308,9 @@ class StmtMixin:
                 yield from self.exec_block(node.body, s)
             elif z3.is_false(tv):
                 yield from self.exec_block(node.orelse, s)
+            elif self.if_convert(node, tv, s):
+                # `if c: x = e` with side-effect-free e: executed as x = (e if c else x), no path split
+                yield ("next",), s
             else:
                 s2 = s.copy()
                 s.assume(tv)
@@ -318,6 +321,54 @@ class StmtMixin:
                 self.path_counter += 1
                 if self.feasible(s2):
                     yield from self.exec_block(node.orelse, s2)
+
+    def if_convert(self, node, tv, st: State) -> bool:
+        from .exec_expr import is_simple
+
+        if node.orelse or len(node.body) != 1:
+            return False
+        stmt = node.body[0]
+        if isinstance(stmt, ast.Assign) and len(stmt.targets) == 1:
+            target, value = stmt.targets[0], stmt.value
+        elif isinstance(stmt, ast.AugAssign) and isinstance(stmt.op, (ast.Add, ast.Sub)):
+            target = stmt.target
+            value = ast.BinOp(left=_as_load(stmt.target), op=stmt.op, right=stmt.value)
+            ast.copy_location(value, stmt)
+            ast.fix_missing_locations(value)
+        else:
+            return False
+        if not (isinstance(target, ast.Name) or (isinstance(target, ast.Attribute) and isinstance(target.value, ast.Name))):
+            return False
+        if not (is_simple(value) or (isinstance(value, ast.BinOp) and is_simple(value.left) and is_simple(value.right))
+                or (isinstance(value, ast.Attribute) and isinstance(value.value, ast.Name))):
+            return False
+        try:
+            trial = st.copy()
+            trial.assume(tv)
+            base_len = len(trial.pc)
+            n0 = len(self.obligs)
+            outs = list(self.ev(value, trial))
+            olds = list(self.ev(_as_load(target), st.copy()))
+            if len(outs) != 1 or len(olds) != 1 or isinstance(outs[0][0], Exc) or isinstance(olds[0][0], Exc) or len(self.obligs) != n0:
+                del self.obligs[n0:]
+                return False
+            merged = self.merge(tv, outs[0][0], olds[0][0], st)
+        except (Unsupported, KeyError):
+            return False
+        s_val = outs[0][1]
+        for f in s_val.pc[base_len:]:
+            st.assume(z3.Implies(tv, f))
+        for r_, o_ in s_val.heap.items():
+            if r_ not in st.heap:
+                st.heap[r_] = o_
+        for g_, v_ in s_val.env.items():
+            if g_.startswith("ghost_") and not (g_ in st.env and st.env[g_] is v_):
+                try:
+                    st.env[g_] = self.merge(tv, v_, st.env[g_], st)
+                except Unsupported:
+                    return False
+        res = self.assign(target, merged, st)
+        return len(res) == 1 and res[0][1] is None
 
     def feasible(self, st: State) -> bool:
         """path pruning: a branch whose path condition is unsatisfiable is dropped (sound: only
